@@ -3683,6 +3683,17 @@ def plain_column_projection(expr, parent, dependents, additional_columns=None):
     elif column_union not in expr.frame.columns:
         # we are accesing the index
         column_union = []
+    elif isinstance(expr, Elemwise) and any(
+        op.ndim == 2
+        if isinstance(op, Expr)
+        else isinstance(op, Mapping) or is_series_like(op)
+        for op in expr.operands[1:]
+    ):
+        # The other operands are keyed by / aligned on the columns of the frame
+        # (fillna({"a": 0}), round(pd.Series({"a": 1})), where(cond_frame), ...).
+        # They mean something else, or are invalid, for a Series, so the frame
+        # has to stay a DataFrame and the parent selects the Series from it.
+        column_union = [column_union]
 
     if column_union == expr.frame.columns:
         return
